@@ -12,8 +12,10 @@ in live batched dynamics.  Five case kinds, one per clause of DESIGN section 6 "
               the empirical hop frequencies.
  rescale  (c) _rescale_velocity_along_nac against the closed-form quadratic (R3.rescale_roots), incl. the tie v.d = 0.
  after    (d) _detect_crossings -> _propagate_electronic -> _after_electronic_update with the REAL _attempt_hop and
-              the REAL rescaling: frustrated / accepted hops, trivial-crossing relabelling, row isolation vs a
-              control run in which row 0 is quiet.
+              the REAL rescaling: frustrated / accepted hops, trivial-crossing relabelling (whatever relabelling is
+              applied must be a bitwise permutation of the amplitude rows, the active index must follow the same
+              permutation, and every label that moved must have gone to the state it corresponds to; whether a planned
+              relabelling is applied at all is counted, not judged), row isolation vs a control run with a quiet row 0.
  tully    (e) TullyFSSH, batched, three model potentials: exact conservation across every _after_electronic_update,
               applied force = -dE_active/dx (finite difference of the model's own energy), total-energy drift against
               the velocity-Verlet shadow-Hamiltonian bound, norm.
@@ -500,6 +502,8 @@ def _run_prop(case):
             for k in range(4):
                 dk, nk = _propagate_once(one, dt, n0 * 2 ** k, first_step=first)
                 acc.count("propagate_returns_seen")
+                if nk is None or int(nk) != n0 * 2 ** k:
+                    acc.violate("fixed-substeps-honoured", None, asked=n0 * 2 ** k, used=None if nk is None else int(nk))
                 As.append(float(np.linalg.norm(dk._coeffs_complex().numpy()[0] - ref)))
                 Ns.append(abs(float(dk.populations.numpy()[0].sum()) - 1.0))
                 acc.count("ladder_levels")
@@ -962,8 +966,11 @@ def _run_after(case):
             acc.violate("g-range-in-pipeline", None, gmin=float(gnp.min()), gmax=float(gnp.max()),
                         rowsum=float(gnp.sum(axis=1).max()))
     # ---- relabelling ---------------------------------------------------------------------------------
+    # Judged: whatever relabelling WAS applied is a permutation pi of the amplitude rows (bitwise), the active index
+    # follows the same pi, and every label that moved went to the state it corresponds to (pi(i) = p(i), p = the
+    # planned old->new correspondence built into the CIS amplitudes).  Not judged: whether a planned relabelling is
+    # applied at all (the statement does not demand it; e.g. longer cycles are deliberately left alone) - counted.
     exp_act = mid["act"].copy()
-    relabelled = set()
     for b in range(B):
         p = inp["perms"][b]
         ident = p == list(range(ns))
@@ -974,39 +981,55 @@ def _run_after(case):
         popf = pf[:, 0] ** 2 + pf[:, 1] ** 2
         has_cycle = _has_long_cycle(p)
         mech = MECH_CYCLE if has_cycle else None
-        if not ident:
-            relabelled.add(b)
-            acc.count("after_trivial_relabels")
-            acc.cells.add("relabel/%s" % ("cycle>=3" if has_cycle else "swaps"))
-        if not decoh:
-            if not _beq(np.sort(popm), np.sort(popf)):
-                acc.violate("relabel-is-permutation-of-populations", mech, row=b, planned=p, swap_to=None if res["swap"] is None else res["swap"][b].tolist(),
-                            pop_before=popm.tolist(), pop_after=popf.tolist(), sum_after=float(popf.sum()))
-            else:
-                expect = np.empty_like(pm)
-                for i in range(ns):
-                    expect[p[i]] = pm[i]
-                if not _beq(expect, pf):
-                    inv = np.empty_like(pm)
-                    for i in range(ns):
-                        inv[i] = pm[p[i]]
-                    if _beq(inv, pf):  # exactly the inverse relabelling: a different mechanism from the cycle defect
-                        acc.violate("relabel-applied-the-wrong-way-round", None, row=b, planned=p,
-                                    swap_to=None if res["swap"] is None else res["swap"][b].tolist())
-                    else:
-                        acc.violate("relabel-amplitudes-follow-their-state", mech, row=b, planned=p,
-                                    swap_to=None if res["swap"] is None else res["swap"][b].tolist())
-                else:
-                    acc.margin("relabel_norm_change", abs(float(popf.sum() - popm.sum())), 1e-14)
-        exp_act[b] = p[int(mid["act"][b])]
+        a_mid = int(mid["act"][b])
         triv = [e for e in log if e[0] == b and e[4] == "Trivial crossing"]
-        if exp_act[b] != mid["act"][b]:
-            acc.count("after_active_relabelled")
-            if not (len(triv) == 1 and triv[0][1] == int(mid["act"][b]) and triv[0][2] == int(exp_act[b])):
-                acc.violate("relabel-active-index-follows", mech, row=b, planned=p, active_before=int(mid["act"][b]),
-                            logged=triv, active_after=int(fin["act"][b]))
+        swap_row = None if res["swap"] is None else res["swap"][b].tolist()
+        pi = None
+        if not decoh:
+            # observed map: where did the amplitude triple of old label i end up?
+            cand = []
+            for i in range(ns):
+                js = [j for j in range(ns) if _beq(pm[i], pf[j])]
+                cand.append(js)
+            pi = []
+            for i in range(ns):
+                js = [j for j in cand[i] if j not in pi] or cand[i]
+                pi.append(p[i] if p[i] in js else (i if i in js else (js[0] if js else -1)))
+            if sorted(pi) != list(range(ns)) or not _beq(np.sort(popm), np.sort(popf)):
+                acc.violate("relabel-is-permutation-of-amplitudes", mech, row=b, planned=p, swap_to=swap_row, observed_map=pi,
+                            pop_before=popm.tolist(), pop_after=popf.tolist(), sum_after=float(popf.sum()))
+                pi = None
+            else:
+                acc.margin("relabel_norm_change", abs(float(popf.sum() - popm.sum())), 1e-14)
+                moved = [i for i in range(ns) if pi[i] != i]
+                if moved:
+                    acc.count("after_trivial_relabels")
+                    acc.cells.add("relabel/applied/%s" % ("cycle>=3" if _has_long_cycle(pi) else "swaps"))
+                if any(pi[i] != p[i] for i in moved):
+                    inv = [p.index(i) for i in range(ns)]
+                    if pi == inv and inv != p:
+                        acc.violate("relabel-applied-the-wrong-way-round", None, row=b, planned=p, observed_map=pi, swap_to=swap_row)
+                    else:
+                        acc.violate("relabel-follows-the-state-correspondence", mech, row=b, planned=p, observed_map=pi,
+                                    swap_to=swap_row)
+                if not ident and not moved:
+                    acc.count("after_planned_cycle_not_relabelled" if has_cycle else "after_planned_swap_not_relabelled")
+                    acc.cells.add("relabel/not-applied/%s" % ("cycle>=3" if has_cycle else "swaps"))
+        if pi is not None:
+            exp_act[b] = pi[a_mid]
         elif triv:
-            acc.violate("relabel-active-index-follows", mech, row=b, planned=p, logged=triv, note="unexpected relabel event")
+            exp_act[b] = triv[0][2]  # amplitudes unavailable (collapsed / already flagged): take the logged relabel
+        if pi is not None or decoh:
+            if exp_act[b] != a_mid:
+                acc.count("after_active_relabelled")
+                if not (len(triv) == 1 and triv[0][1] == a_mid and triv[0][2] == int(exp_act[b])):
+                    acc.violate("relabel-active-index-follows", mech, row=b, planned=p, observed_map=pi, active_before=a_mid,
+                                logged=triv, active_after=int(fin["act"][b]))
+                elif decoh and int(exp_act[b]) != p[a_mid]:
+                    acc.violate("relabel-follows-the-state-correspondence", mech, row=b, planned=p, active_before=a_mid, logged=triv)
+            elif triv:
+                acc.violate("relabel-active-index-follows", mech, row=b, planned=p, observed_map=pi, logged=triv,
+                            note="relabel event logged although the active label did not move")
     # ---- hops ----------------------------------------------------------------------------------------
     hopped = {}
     for (b, fr, to, ok, reason) in log:
@@ -1053,7 +1076,7 @@ def _run_after(case):
                 acc.violate("no-hop-row-velocities-untouched", None, row=b)
             if int(fin["act"][b]) != int(exp_act[b]):
                 acc.violate("no-hop-row-active-index", MECH_CYCLE if _has_long_cycle(inp["perms"][b]) else None, row=b,
-                            expected=int(exp_act[b]), got=int(fin["act"][b]))
+                            expected=int(exp_act[b]), got=int(fin["act"][b]), planned=inp["perms"][b])
     if want_hop and 0 not in hopped:
         acc.count("after_no_hop_attempt_in_row0")
     # ---- row isolation: control run with a quiet row 0 --------------------------------------------------
